@@ -7,6 +7,7 @@
 package c13
 
 import (
+	"bufio"
 	"bytes"
 	"fmt"
 	"math"
@@ -303,6 +304,19 @@ func parse(b []byte) (x xmp.XMP, err error, pan string) {
 	return
 }
 
+// parseVia hands ParseXmp a caller's bufio.Reader of the given size (the reader adopts it if it is large enough).
+func parseVia(b []byte, size int) (x xmp.XMP, err error, pan string) {
+	defer func() {
+		if r := recover(); r != nil {
+			pan = fmt.Sprint(r)
+		}
+	}()
+	x, err = xmp.ParseXmp(bufio.NewReaderSize(bytes.NewReader(b), size))
+	return
+}
+
+var bufioSizes = []int{16, 512, 600, 1024, 1537, 1538, 1539, 4096, 65536}
+
 func eval(c Case) *pbt.Fail {
 	key := c.Ext
 	pkt := xmpgen.Serialise(c.Rec)
@@ -325,6 +339,11 @@ func eval(c Case) *pbt.Fail {
 	}
 	if d := compare(got, want); d != "" {
 		return pbt.Failf(keyOr(key, "value"), "parse(serialise(record)) != record: %s%s", d, hint(c.Rec, pkt))
+	}
+	// the same packet through a caller-supplied bufio.Reader of a size chosen by the packet's length (every size is met)
+	size := bufioSizes[len(pkt)%len(bufioSizes)]
+	if gb, eb, pb := parseVia(pkt, size); pb != "" || eb != nil || digest.Of(gb) != digest.Of(got) {
+		return pbt.Failf(keyOr(key, "bufio-reader"), "ParseXmp through a caller's bufio.Reader of %d bytes: err %v, panic %q, same result %v; through a plain reader it parses exactly%s", size, eb, pb, eb == nil && pb == "" && digest.Of(gb) == digest.Of(got), hint(c.Rec, pkt))
 	}
 	// the same record with every simple property as attribute / as element parses identically
 	ra, re := c.Rec, c.Rec
